@@ -690,8 +690,8 @@ func validateLeafTypeValue(lt *sdcpb.SchemaLeafType, v any) error {
 	case "leafref":
 		// TODO: does this need extra validation?
 		return nil
-	case "bits", "binary":
-		// carried as strings (the names of the set bits / the base64 encoded data)
+	case "bits", "binary", "instance-identifier":
+		// carried as strings (the names of the set bits / the base64 encoded data / the instance path)
 		switch v.(type) {
 		case string:
 			return nil
